@@ -1,5 +1,6 @@
 import GA.M.Rewrite
 import GA.Props.C14
+import GA.Generated.Facts
 /-
   C15 — archive rewriters preserve everything they do not target.
 -/
@@ -106,6 +107,10 @@ theorem replaceLoop_mods_shrink : ∀ (es : List Entry) (st st' : RState), repla
           · cases hap; rfl
         rw [this] at hmem
         exact (List.mem_filter.mp hmem).1
+
+/-- obligation on the regenerated structure: both rewriters close their pipe (with the error, where
+    there is one) on every exit path -/
+theorem rewriters_close_with_error : Facts.rebaseClosesAlways = true ∧ Facts.replaceClosesAlways = true := by decide
 
 /-- non-vacuity: a replace that drops one entry, rewrites another, adds a third -/
 example :
